@@ -23,6 +23,22 @@ CLAIMED = {
    text="Seeded pairs of tables (null rows anywhere, 1..3 key columns of differing scalar types and row shapes, masked key entries, disjoint/partial/heavy overlap, payload columns, null column at any position) x 4 join types x masked/unmasked x owners x outputs: plaintext join against a reference relational join written from the documentation; compiled join in the repository's local run and in three-party simulated runs under junk/tape/schedule/restart/network faults; protocol aborts (cuckoo hashing) are counted, never a wrong table.",
    note="Trusts: the reference join model (written from the documentation of Graph::join / join_with_column_masks); the stub party runtime (see C02).",
    technique="deterministic three-party simulation with fault injection + reference-model oracle"),
+ "C05": dict(engine="trisim", category="exploration", design_ref="§4 C05",
+   text="One-Truncate and Multiply->Truncate graphs over all 10 integer types, every k in 1..w-2 and non-power-of-two divisors, inputs biased to the boundaries of the documented range, every admissible i8/u8 input for every k (first 24 cases); executed by the repository's local run (3 seeds), one-party scheduled runs and three-party runs with independent tapes, junk, schedules, restarts and network faults. Oracle: result - floor(x/2^k) in {0,1}; general divisor: within one unit, or the documented wrap-around class (counted, not accepted for small inputs on 64/128-bit types); public operands exact.",
+   note="Trusts: harness integer arithmetic for the bound; the stub party runtime (see C02). Programs the compiler rejects (general divisor on unsigned types) are skipped and counted.",
+   technique="deterministic three-party simulation with fault injection; error-bound oracle over protocol randomness and boundary inputs"),
+ "C11": dict(engine="apisim", category="exploration", design_ref="§4 C11",
+   text="Histories of 20..120 API calls by interleaved builder clients over the graphs of 1-2 shared contexts, with rejected calls (foreign/unfinalized/younger arguments, type errors, size limits reached through the repository's `fuzzing` feature) as injected faults. Oracles after every call: reference model for mandatory failures; on Err the serialised context is unchanged; a twin context freshly rebuilt from the serialised state must accept/reject the same call and end in the same state with the same node type and id (no ghost names, annotations, type-cache or size-counter state); global well-formedness invariants and model agreement.",
+   note="Trusts: the serialised context + public getters as the observable state; whether type inference accepts an operation is taken from the implementation. Built with the repository's existing cargo feature `fuzzing` (smaller size limits) so the post-registration rollback path is reachable; half of the histories never use oversized types.",
+   technique="deterministic simulation of interleaved API clients with failing calls as faults; reference model + reload-twin differential after every call"),
+ "C14": dict(engine="sharesim", category="exploration", design_ref="§4 C14",
+   text="Dealer shares seeded typed values (all 11 scalar types, ragged bit arrays, nested containers) through get_local_shares_for_each_party, ReplicatedShares::secret_share_for_parties and share_vector; the three bundles go to three simulated parties; any one party is lost; the two survivors reconstruct from the slots they are documented to hold. Also: full-tuple reveal, holder agreement per slot, junk third slot is not the true share, and two-world chi-square tests (conservative threshold) of one party's held shares over 40k..400k dealer seeds.",
+   note="Trusts: harness modular addition for reconstruction; statistical thresholds with false-alarm probability < e^-40 per test (default seed fixed).",
+   technique="deterministic simulation of dealer/three parties with party-loss fault; reconstruction oracle and two-world distribution tests over seeds"),
+ "C15": dict(engine="prfsim", category="exploration", design_ref="§4 C15",
+   text="Seeded interleavings of PRF / PermutationFromPRF evaluations from a pool of (key, counter, type) triples over 2..4 SimpleEvaluator instances sharing keys, with unrelated Random draws between calls and instance restarts; model = memo table (same triple => same value at every instance, in every order, before and after restart). Every value is a valid encoding (lengths, zero padding bits, true permutations); unrelated triples give different, bitwise-unrelated values; PRNG replays from its seed; bounded draws in range and chi-square uniform.",
+   note="Trusts: the memo table as reference (first observed value); statistical thresholds with false-alarm probability < e^-40.",
+   technique="deterministic simulation of interleaved evaluator instances with restarts; memo-table reference model"),
 }
 
 NOT_YET = {
